@@ -12,9 +12,8 @@
        forall D sc p, class code_sites D sc p <> CFatal                                   (no_fatal)
    is REFUTED (C05_no_fatal_refuted): exhaustion of the Go stack cannot be recovered, and the
    10000-slot guard of funcGen.stackStorage.set does not bound the Go stack when recursion passes
-   through a fresh storage per level (list methods that call closures on funcGen.NewEmptyStack) or
-   when one level nests many Go calls (known findings recursion-through-fresh-stack/any,
-   recursion-deep-body/any).  C05_no_fatal_partial is the property under "no fault source exhausts
+   when one level nests many Go calls (known finding recursion-deep-body/any); recursion through
+   fresh value stacks (map, accept, multiUse) was repaired (NewEmptyStackBelow) and is an error now.  C05_no_fatal_partial is the property under "no fault source exhausts
    the Go stack". *)
 From P2 Require Import Base.Prelude Sem.Num Sem.Syntax Sem.Ops Sem.Lib Sem.Ref Conc.Crash Conc.CrashProofs Conc.NoPanicProofs Conc.TryProofs.
 Require Import Sorted.
@@ -131,9 +130,16 @@ Theorem C05_unguarded_recursion_refuted : forall S D frames, 1 <= frames ->
   fault_raw S D (FRecFresh frames (D + 1)) = RFatal.
 Proof. exact rec_fresh_exceeds_any_stack. Qed.
 
-(* recursion whose recursive call sits in the closure handed to a method m: an error (never fatal) when m
-   runs the closure on the caller's storage, fatal at some finite depth when m starts a fresh storage
-   (s_fresh code_sites = list.map, list.accept, list.multiUse: the three known findings) *)
+(* recursion whose recursive call sits in the closure handed to ANY method m is stopped by the guard in
+   the code as it is (no method starts its closures at depth 0 any more: s_fresh code_sites = []) *)
+Theorem C05_recursion_through_method_is_an_error : forall D m slots frames depth,
+  1 <= slots -> (guard_limit + 2) * frames <= D ->
+  fault_raw code_sites D (FRecThrough m slots frames depth) <> RFatal.
+Proof. exact rec_through_code_is_guarded. Qed.
+
+(* for any table of methods that start a fresh storage: guarded outside the table, fatal at a finite depth
+   inside it (old_sites: list.map, list.accept, list.multiUse - what a mutation that forgets the depth
+   of the callers brings back) *)
 Theorem C05_recursion_through_guarded_method_partial : forall S D m slots frames depth,
   mem_str m (s_fresh S) = false -> 1 <= slots -> (guard_limit + 2) * frames <= D ->
   fault_raw S D (FRecThrough m slots frames depth) <> RFatal.
@@ -172,5 +178,6 @@ Print Assumptions C05_guard_bounds_storage.
 Print Assumptions C05_guard_bounds_depth.
 Print Assumptions C05_guarded_recursion_is_an_error.
 Print Assumptions C05_unguarded_recursion_refuted.
+Print Assumptions C05_recursion_through_method_is_an_error.
 Print Assumptions C05_recursion_through_guarded_method_partial.
 Print Assumptions C05_recursion_through_fresh_method_refuted.
